@@ -164,6 +164,38 @@ UNITS["actor"] = {
     "timeout_quick": 1200,
 }
 
+UNITS["group"] = {
+    "kind": "kani",
+    "crate": "harness/group",
+    "harness_mod": "group::verif_contracts",
+    "kani_flags": [],
+    "env": {"VCOLL_CAP": "3"},
+    "sources": ["datacake-eventual-consistency/src/keyspace/group.rs", "datacake-crdt/src/timestamp.rs"],
+    "slice": [{
+        "mode": "items", "src": "datacake-eventual-consistency/src/keyspace/group.rs", "out": "group.rs",
+        "prelude": "/verif/harness/group/src/prelude.rs",
+        "deasync": True,
+        "items": [
+            {"kind": "type", "name": "KeyspaceMap"},
+            {"kind": "struct", "name": "KeyspaceGroup"},
+            {"kind": "impl_fns", "name": "KeyspaceGroup", "header": r"impl<S> KeyspaceGroup<S>\s+where\s+S: Storage,\s*\{\s*/// Creates a new",
+             "fns": ["get_or_create_keyspace", "load_states_from_storage", "load_states", "add_state"]},
+        ],
+        "append": ['#[cfg(kani)] #[path = "/verif/harness/group/src/contracts.rs"] mod verif_contracts;'],
+    }],
+    "extraction": "items `type KeyspaceMap`, `struct KeyspaceGroup` and the fns get_or_create_keyspace, load_states_from_storage, load_states, add_state of "
+                  "`impl<S> KeyspaceGroup<S>` cut verbatim and pasted after harness/group/src/prelude.rs; the `async` keyword and every `.await` token are deleted",
+    "functions": ["KeyspaceGroup::load_states_from_storage", "KeyspaceGroup::load_states", "KeyspaceGroup::get_or_create_keyspace", "KeyspaceGroup::add_state"],
+    "assumptions": [
+        "the ORSWOT set is linked by contract (contracts/specset.rs); storage is a ghost row store (<= 2 keyspaces x <= 3 rows, one row per id, distinct stamps)",
+        "spawn_keyspace is a stand-in that records the state it is handed; ActorMailbox is an identity; Clock returns any stamp",
+        "C18: parking_lot RwLock sections are atomic and no guard is held across an await (checked by reading: guards live in inner blocks); other tasks run only at "
+        "the former await points (clock read, actor spawn) and only ever add a binding for an unbound name (rely == the guarantee proved)",
+        "async/await de-sugared: cancellation between await points not covered",
+    ],
+    "timeout_quick": 1200,
+}
+
 import copy
 UNITS["orswot_b"] = copy.deepcopy(UNITS["orswot"])
 UNITS["orswot_b"].update({
@@ -173,6 +205,7 @@ UNITS["orswot_b"].update({
                   "fixed-capacity vcoll::VVec (2 lines prepended); one `mod` line appended",
     "functions": ["OrSWotSet::diff", "OrSWotSet::purge_old_deletes", "OrSWotSet::add_raw_tombstones", "OrSWotSet::merge", "NodeVersions::merge"],
     "timeout_quick": 1200, "timeout_thorough": 2400,
+    "env": {"VCOLL_CAP": "3"},
 })
 UNITS["orswot_b"]["slice"][0].update({
     "prepend": ["use vcoll::vvec::VVec as Vec;",
@@ -255,8 +288,9 @@ _k("os_lacks", "orswot", "P", "OrSWotSet::check_self_then_insert_to",
 
 # ---- unit orswot_b (class B: the iterated collection is concrete and bounded)
 _k("os_diff_list", "orswot_b", "B", "OrSWotSet::diff",
-   "S arbitrary/unbounded, O with <= 2 live + <= 2 tombstones: changes == live entries of O that S lacks (peer's stamps, once each); "
-   "removals likewise from O's tombstones; nothing else listed", bound="|O.entries| <= 2, |O.dead| <= 2")
+   "S arbitrary/unbounded, O with <= 1 live + <= 1 tombstone: changes == live entries of O that S lacks (peer's stamps, once each); "
+   "removals likewise from O's tombstones; nothing else listed", bound="|O.entries| <= 1, |O.dead| <= 1")
+_k("os_diff_list_3", "orswot_b", "B", "OrSWotSet::diff", "same contract at the larger bound", bound="|O.entries| <= 2, |O.dead| <= 1", tier="thorough")
 _k("os_purge_all", "orswot_b", "B", "OrSWotSet::purge_old_deletes",
    "<= 3 tombstones, entries/versions arbitrary: dropped+returned iff before the cut-off of its origin; entries, newest stamps, cut-offs untouched",
    bound="|dead| <= 3")
@@ -296,6 +330,14 @@ _k("ac_on_purge", "actor", "B", "KeyspaceActor::on_purge_tombstones",
    "<= 2 tombstones: a tombstone leaves the set iff it left storage (failed removals re-added); only tombstones older than the cut-off; live documents untouched",
    bound="|dead| <= 2")
 
+# ---- unit group
+_k("gr_load_all", "group", "B", "KeyspaceGroup::load_states_from_storage / load_states",
+   "for every storage content (<= 2 keyspaces x <= 3 rows, any order, any tombstone flags) the state handed to each keyspace actor holds exactly the rows: "
+   "live ids and tombstones with their stamps, nothing else; name bound to that actor; a failed read starts nothing",
+   bound="2 keyspaces x 3 rows")
+_k("gr_binding_preserved", "group", "P", "KeyspaceGroup::get_or_create_keyspace / add_state",
+   "arbitrary group map, environment steps at both former await points: result == map'[name]; a binding once set (before the call or by another task in the window) is never replaced")
+
 # ---- Verus lemma layer (each file = shared exec kernels proved equal to spec kernels + lemmas)
 _v("lemmas_lww", "lemmas/lww.rs", "kernels k_insert/k_delete/k_cut/k_before/k_will_apply/k_lacks/k_max_stamp/k_safe; lemma layer",
    "exec kernel == spec kernel for all 8 kernels; lemma_fold_lww: any arrival order of accepted ops with distinct stamps ends at "
@@ -326,7 +368,7 @@ PROPERTIES = {
         "level": "proof", "explanation": "", "assumptions": [],
     },
     "C05": {
-        "obligations": ["os_lacks", "os_diff_list", "os_insert_contract", "os_delete_contract", "lemmas_repair"],
+        "obligations": ["os_lacks", "os_diff_list", "os_diff_list_3", "os_insert_contract", "os_delete_contract", "lemmas_repair"],
         "level": "proof", "explanation": "", "assumptions": [],
     },
     "C08": {
@@ -337,6 +379,18 @@ PROPERTIES = {
         "obligations": ["ac_on_set", "ac_on_del", "ac_on_multi_set", "ac_on_multi_del", "ac_on_purge",
                         "os_will_apply", "os_insert_contract", "os_delete_contract", "os_purge_all", "os_raw_tombstones"],
         "level": "proof", "explanation": "", "assumptions": [],
+    },
+    "C07": {
+        "obligations": ["gr_load_all", "os_insert_contract", "os_delete_contract", "ac_on_set", "ac_on_del"],
+        "level": "proof", "explanation": "", "assumptions": [
+            "'converges with its peers as in C01' is not decided (C01 is not applicable)",
+            "crash points: the rebuilt state is a function of storage only (gr_load_all), so the in-memory state at the crash is irrelevant; "
+            "'acknowledged => in storage' is the Ok branch of ac_on_set/ac_on_del (storage written before the reply)"],
+    },
+    "C18": {
+        "obligations": ["gr_binding_preserved"],
+        "level": "proof", "explanation": "", "assumptions": [
+            "schedule quantifier discharged by a rely/guarantee reduction: one sequential contract per write-locked section, environment steps at await points"],
     },
     "C12": {
         "obligations": ["view_using_1", "view_using_8", "view_using_24", "view_roundtrip_8", "view_roundtrip_24"],
